@@ -43,6 +43,26 @@ VISIT_CAP = 6_000_000
 _emits = [0]
 _visits = [0]
 _counting = [False, False]          # [emit counter installed, node-visit counter installed]
+_prog = [0]                         # the longest program of a compiler seen at a counted emission / node visit
+_prog_seen = [True]                 # False once a compiler without a `bytecode` list has been met (then not reported)
+
+
+def _see_program(compiler):
+    try:
+        n = len(compiler.bytecode)
+    except Exception:       # noqa: BLE001
+        _prog_seen[0] = False
+        return
+    if n > _prog[0]:
+        _prog[0] = n
+
+
+def _peak_rss_kb():
+    try:
+        import resource
+        return int(resource.getrusage(resource.RUSAGE_SELF).ru_maxrss)
+    except Exception:       # noqa: BLE001
+        return -1
 
 
 def install_emit_counter(api):
@@ -62,6 +82,7 @@ def install_emit_counter(api):
 
     def counted(self, *a, **k):
         _emits[0] += 1
+        _see_program(self)
         if _emits[0] > EMIT_CAP:
             raise api.HarnessHang("emit cap")
         return orig(self, *a, **k)
@@ -137,9 +158,13 @@ def construct_batch(case, api):
         wall = float(it.get("wall", 10.0))
         t0 = time.process_time()
         # channel 1: the package API
-        _emits[0] = _visits[0] = 0
+        _emits[0] = _visits[0] = _prog[0] = 0
+        rss0 = _peak_rss_kb()
         out = api.run(lambda: RegExp(p, fl), wall=wall, cap=10**9)
-        work = [_visits[0] if _counting[1] else -1, _emits[0] if _counting[0] else -1]
+        rss1 = _peak_rss_kb()
+        # [AST nodes visited, instructions emitted, longest program seen on the way, growth of the peak resident set in KB]
+        work = [_visits[0] if _counting[1] else -1, _emits[0] if _counting[0] else -1,
+                _prog[0] if _counting[0] and _prog_seen[0] else -1, rss1 - rss0 if rss0 >= 0 and rss1 >= 0 else -1]
         if out["o"] == "value":
             c1 = "ok"
         elif out["o"] == "host" and out.get("type") == "RegExpError":
@@ -252,6 +277,8 @@ class Counter:
 
 
 # the entry points that run the matcher on a RegExp object (script level); R = new RegExp(P, F), S = the subject
+# the pattern argument of the entry points that build the matcher themselves from a non-RegExp value (cfg.arg)
+ARG_JS = {"string": "P", "strobj": "new String(P)"}
 OPS_JS = {
     "test": "R.test(S)", "exec": "R.exec(S)", "match": "S.match(R)", "search": "S.search(R)", "replace": "S.replace(R, '-')",
     "replaceAll": "S.replaceAll(R, '-')", "split": "S.split(R)",
@@ -306,7 +333,12 @@ def run_driver(case, api):
         ctx.set("P", src)
         ctx.set("F", wire.from_units(cfg["fl"]))
         ctx.set("S", subject)
-        body = "var R = new RegExp(P, F); var v = %s; __out(v === null ? 'null' : v === false ? 'false' : v === true ? 'true' : 'v');" % OPS_JS[cfg["op"]]
+        arg = cfg.get("arg", "regexp")
+        if arg == "regexp":
+            call = "var R = new RegExp(P, F); var v = %s;" % OPS_JS[cfg["op"]]
+        else:                                                  # no RegExp object in the script: the entry point builds the matcher
+            call = "var v = S.%s(%s);" % ({"match": "match", "search": "search"}[cfg["op"]], ARG_JS[arg])
+        body = call + " __out(v === null ? 'null' : v === false ? 'false' : v === true ? 'true' : 'v');"
         if cfg["form"] == "try":
             body = "try { " + body + " } catch (e) { __out('caught:' + __cls(e)); }"
 
